@@ -307,6 +307,15 @@ func runC07(r *fw.Run, p *fw.Program) {
 	c07ToJSON(r, p, jq, goReg)
 	c07Encoder(r, p, ref)
 	c07Eval(r, p)
+	// fromjson / json decode: exactly one value then EOF (borrowed from C16.text.eof: the same decoder serves fromjson)
+	{
+		sc := r.Scratch()
+		runC16TextOnly(sc, p)
+		r.Import(sc, "C16.text.eof", "C07.fromjson", "fromjson / the json decoder accept exactly one top-level value followed by EOF: the accepting condition is exactly io.EOF from the read after the value, and 64-bit integers are kept (UseNumber)", 2,
+			func(k string) bool { return strings.HasPrefix(k, "json") })
+	}
+	// halt_error output (shared with C17.go): string raw, null nothing, everything else compact JSON + newline
+	c17HaltPrintAs(r, p, "C07.haltprint")
 }
 
 // c07EmbeddedOnly restricts the jq model to the sources fq really bundles: files matched by a
